@@ -192,12 +192,49 @@ func addressLiterals(path string) (map[string]lit, map[string]string) {
 		}
 		out[name] = lit{val: v, where: where}
 	}
+	// The encoder's literals are looked for in ToBase58 and in the functions of the same file it
+	// calls (transitively), so that moving the body into a helper keeps the tie; each function is
+	// mapped to the role of the anchor it is reachable from.
+	decls := map[string]*ast.FuncDecl{}
+	for _, d := range f.Decls {
+		if fd, ok := d.(*ast.FuncDecl); ok && fd.Body != nil {
+			decls[fd.Name.Name] = fd
+		}
+	}
+	role := map[string]string{}
+	var mark func(name, r string, depth int)
+	mark = func(name, r string, depth int) {
+		fd, ok := decls[name]
+		if !ok || depth > 4 {
+			return
+		}
+		if _, seen := role[name]; seen {
+			return
+		}
+		role[name] = r
+		ast.Inspect(fd.Body, func(n ast.Node) bool {
+			if call, ok := n.(*ast.CallExpr); ok {
+				switch fn := call.Fun.(type) {
+				case *ast.Ident:
+					mark(fn.Name, r, depth+1)
+				case *ast.SelectorExpr:
+					if id, ok := fn.X.(*ast.Ident); ok && fd.Recv != nil && len(fd.Recv.List) == 1 &&
+						len(fd.Recv.List[0].Names) == 1 && id.Name == fd.Recv.List[0].Names[0].Name {
+						mark(fn.Sel.Name, r, depth+1) // method call on the receiver
+					}
+				}
+			}
+			return true
+		})
+	}
+	role["AddressFromBase58"] = "AddressFromBase58" // the decoder's literals only in the anchor itself
+	mark("ToBase58", "ToBase58", 0)
 	for _, d := range f.Decls {
 		fd, ok := d.(*ast.FuncDecl)
 		if !ok || fd.Body == nil {
 			continue
 		}
-		switch fd.Name.Name {
+		switch role[fd.Name.Name] {
 		case "ToBase58":
 			ast.Inspect(fd.Body, func(n ast.Node) bool {
 				switch x := n.(type) {
